@@ -642,10 +642,15 @@ class Discharger:
         """var is a loop variable over a list whose every element is truthy ([s for s in xs if s])."""
         p = getattr(node, "_parent", None)
         while p is not None and p is not f.node:
+            over = []
             if isinstance(p, ast.For) and src(p.target) == var and isinstance(p.iter, ast.Name):
-                defs = self._defs(f, p.iter.id)
-                if defs and isinstance(defs[-1], ast.ListComp) and any(src(c) == src(defs[-1].elt) for g in defs[-1].generators for c in g.ifs) and src(defs[-1].elt) == src(defs[-1].generators[0].target):
-                    return f"every element of {p.iter.id} is non-empty (filtered by truthiness)"
+                over.append(p.iter.id)
+            if isinstance(p, (ast.ListComp, ast.SetComp, ast.GeneratorExp, ast.DictComp)):
+                over += [g.iter.id for g in p.generators if src(g.target) == var and isinstance(g.iter, ast.Name)]
+            for nm in over:
+                defs = self._defs(f, nm)
+                if defs and isinstance(defs[-1], ast.ListComp) and self._truthy_filtered(defs[-1]):
+                    return f"every element of {nm} is non-empty (filtered by truthiness)"
             # elements of str.split() (no separator) are non-empty words
             iters = []
             if isinstance(p, ast.For) and src(p.target) == var:
@@ -663,6 +668,22 @@ class Discharger:
                     return f"`{var}` is an element of filter(None, ...): only truthy (non-empty) elements get through"
             p = getattr(p, "_parent", None)
         return None
+
+    @staticmethod
+    def _truthy_filtered(lc: ast.ListComp) -> bool:
+        """`[s for s in xs if s]` or `[t for s in xs if (t := g(s))]`: the element itself is tested for truth."""
+        if not isinstance(lc.elt, ast.Name):
+            return False
+        e = lc.elt.id
+        for g in lc.generators:
+            for c in g.ifs:
+                parts = c.values if isinstance(c, ast.BoolOp) and isinstance(c.op, ast.And) else [c]
+                for t in parts:
+                    if isinstance(t, ast.Name) and t.id == e and any(src(g2.target) == e for g2 in lc.generators):
+                        return True
+                    if isinstance(t, ast.NamedExpr) and t.target.id == e:
+                        return True
+        return False
 
     def _yields_nonempty(self, f: Func, node: ast.AST, var: str) -> Optional[str]:
         """var is the variable of a loop over g(...) where g is a package generator that only yields values it has
